@@ -123,6 +123,62 @@ func (c *ctx) checkRun(sp SessionSpec, seed int64, polName string, s *Sim, order
 				schedReplay{Spec: sp.Name, Seed: seed, Policy: polName, Order: order, Expected: mo, Observed: ro, Node: string(n.ID), Event: i})
 		}
 	}
+	c.c07System(sp, seed, polName, s, order, sh)
+}
+
+// c07Sys: counters of the system-level comparison (pump_sys.go) for the run's notes
+var c07Sys = sysStats{skips: map[string]int{}}
+
+// c07System: the whole session in the system model (Model/System.v through sys.run): every party's final observation, who
+// completed, which completers hold equal views; and the C07 theorem read off the reply (hypotheses reported => everybody done,
+// ideal output) against what the real handlers did.
+func (c *ctx) c07System(sp SessionSpec, seed int64, polName string, s *Sim, order []string, sh shapeInfo) {
+	o, err := c.CompareSystemWithModel(s, sh, true)
+	rp := func(exp, obs string) sysSchedReplay {
+		return sysSchedReplay{schedReplay: schedReplay{Spec: sp.Name, Seed: seed, Policy: polName, Order: order, Expected: exp, Observed: obs}, Events: o.Events, Resolved: o.Resolved}
+	}
+	if err != nil {
+		c.res.Corr(false)
+		c.res.Violate("correspondence", "C07/system-model-error", err.Error(), rp("", ""))
+		return
+	}
+	if o.Skip != "" {
+		c07Sys.skipped++
+		c07Sys.skips[o.Skip]++
+		return
+	}
+	c07Sys.compared++
+	c07Sys.injects += o.injects
+	c07Sys.invalids += o.invalids
+	c.res.Corr(o.Mismatch == "")
+	if o.Mismatch != "" {
+		c.res.Violate("correspondence", "C07/system-model/"+sp.Name, "whole session in the system model (sys.run): "+o.Mismatch, rp(o.Model, o.Real))
+		return
+	}
+	f := o.Facts
+	if !f.WF {
+		c07Sys.notWF++
+	}
+	if !f.Complete {
+		c07Sys.incomplete++
+	}
+	if f.c07Hyp() {
+		c07Sys.hypC07++
+		// the theorem (Properties/C06_sys.v C07_sys_schedule_independent) says the reply reports everybody done with the ideal
+		// output; the reply agrees with the real handlers (checked above), so a failure here is the property failing on the code
+		if !f.c07Concl(len(s.IDs)) {
+			c.res.Violate("property", "C07/"+sp.Name+"/system/"+polName, "all-honest complete schedule (only junk injected), but not every party completed with the lockstep output",
+				rp(fmt.Sprintf("completers %v ideal %v", f.Completers, f.Ideal), ""))
+		}
+	}
+}
+
+// sysSchedReplay: a schedule replay with the system-level event list (kind, sender, recipient, round) and the schedule the
+// model resolved it to.
+type sysSchedReplay struct {
+	schedReplay
+	Events   []string `json:"system_events,omitempty"`
+	Resolved string   `json:"resolved_schedule,omitempty"`
 }
 
 // permutations of 0..n-1 (Heap), calling f for each
@@ -277,6 +333,7 @@ func runC07(c *ctx) {
 			}
 		}
 	}
+	c07Sys.note(c, "C07 schedules")
 	// ---------- (c) TwoPartyHandler: Doerner keygen / sign ----------
 	c.c07TwoParty(nil)
 	if len(c.res.Samples) == 0 {
